@@ -122,3 +122,37 @@ def is_method_call_on_self(fn: FunctionInfo, call: ast.Call, name: str) -> bool:
     f = call.func
     return (isinstance(f, ast.Attribute) and f.attr == name and isinstance(f.value, ast.Name)
             and f.value.id == fn.self_name)
+
+
+def must_complete(an: Analysis, fn: FunctionInfo, target: Node, through: Callable[[Node], bool],
+                  start: Optional[Node] = None) -> Optional[List[Node]]:
+    """Like must_pass, but a *through* node only counts when it completes normally: a path may
+    leave it along its exception edge (e.g. into a handler that swallows) and still be a
+    counterexample."""
+    g = an.cfg(fn)
+    s = start or g.entry
+    return g.path(s, lambda n: n is target, may_raise=oracle(an, fn),
+                  edge_filter=lambda a, b, lbl: not (through(a) and lbl != "exc" and a is not target))
+
+
+def mentions_params(fn: FunctionInfo, expr: ast.expr, node: Optional[Node], params, _depth=0) -> bool:
+    """Does the value of expr derive (through local definitions and nested sub-expressions) from
+    one of the named parameters?"""
+    from .defuse import value_sources
+    if _depth > 8:
+        return False
+    for kind, payload in value_sources(fn, expr, node):
+        if kind == "param" and payload in params:
+            return True
+        if kind == "expr" and isinstance(payload, ast.AST) and not isinstance(payload, ast.Name):
+            for sub in ast.iter_child_nodes(payload):
+                for nm in ast.walk(sub):
+                    if isinstance(nm, ast.Name) and isinstance(nm.ctx, ast.Load):
+                        if mentions_params(fn, nm, reaching_defs(fn).node_of(nm) or node, params, _depth + 1):
+                            return True
+        if kind in ("unpack", "iter", "with") and isinstance(payload, tuple) and isinstance(payload[0], ast.AST):
+            for nm in ast.walk(payload[0]):
+                if isinstance(nm, ast.Name) and isinstance(nm.ctx, ast.Load):
+                    if mentions_params(fn, nm, payload[-1] if isinstance(payload[-1], Node) else node, params, _depth + 1):
+                        return True
+    return False
